@@ -133,7 +133,7 @@ def from_json(b):
         if t == 'func': return ('func', s[1], list(s[2]), blk(s[3]))
         if t in ('do', 'while', 'repeat', 'for', 'defer'): return (t, blk(s[1]))
         if t == 'if': return ('if', blk(s[1]), blk(s[2]))
-        if t == 'switch': return ('switch', [blk(x) for x in s[1]], bool(s[2]), blk(s[3]))
+        if t == 'switch': return ('switch', [blk(x) for x in s[1]], bool(s[2]), blk(s[3])) + ((list(s[4]),) if len(s) > 4 else ())
         return tuple(s)
     return blk(b)
 
@@ -300,7 +300,7 @@ def correspond(ctx):
             continue
         shown += 1
         ctx.violation(k, "oracle",
-                      "a program that breaks a static rule (rule_ok flow/names/labels/consts = %s) is accepted by `nelua --analyze` in embedding %s: %s" % (" ".join(rules[1:]), emb, src),
+                      "a program that breaks a static rule (rule_ok flow/names/labels/consts/switch = %s) is accepted by `nelua --analyze` in embedding %s: %s" % (" ".join(rules[1:]), emb, src),
                       detail={"source_file": src, "source": vlib.read(src), "embedding": emb, "rule_verdicts": rules,
                               "model_offenders": offs, "replay": "nelua --analyze %s  (exit status 0 = accepted)" % src})
     for (sz, src, emb, res, offs, stream) in sorted(mism)[:4]:
@@ -344,7 +344,7 @@ def remap_types(b, usable):
         elif t == 'func': out.append(('func', s[1], s[2], remap_types(s[3], usable)))
         elif t in ('do', 'while', 'repeat', 'for', 'defer'): out.append((t, remap_types(s[1], usable)))
         elif t == 'if': out.append(('if', remap_types(s[1], usable), remap_types(s[2], usable)))
-        elif t == 'switch': out.append(('switch', [remap_types(x, usable) for x in s[1]], s[2], remap_types(s[3], usable)))
+        elif t == 'switch': out.append(('switch', [remap_types(x, usable) for x in s[1]], s[2], remap_types(s[3], usable)) + tuple(s[4:]))
         else: out.append(s)
     return out
 
